@@ -159,9 +159,11 @@ def check_case(case: dict[str, Any]) -> tuple[dict[str, Any], list[Any]]:
     term, retries = case["wait"], case["retries"]
     pol = retry_policy(wait=build(term), stop=stop_after_attempt(retries + 1))
     obs = run_failing(pol, lambda i: RuntimeError(f"fail{i}"), dur=case.get("dur", 0.25),
-                      busy_block=case.get("busy_block", 0.0), max_actions=400)
+                      busy_block=case.get("busy_block", 0.0), max_actions=400, lag=case.get("lag", 0.0))
     v = []
     w = {"strategy": shape(term)}
+    if case.get("lag"):
+        w["loop_reaches_the_failure_late"] = True
     if case.get("busy_block"):
         w["retry_queued_behind_busy_worker"] = True
     if obs.stuck or obs.capped or len(obs.attempts) != retries + 1:
@@ -188,7 +190,8 @@ RULE = ("every listed wait strategy instance (fixed, exponential incl. exp_base<
         "negative increment, random, exponential jitter, random exponential, wait_chain of 1-3 strategies in all "
         "orders, wait_combine, strategies configured with timedelta arguments incl. sub-second and multi-day values) x 1..4 retries; a real failing step runs on the virtual clock and the gap "
         "t_start(k+1) - t_fail(k) is compared with the tenacity-documented delay (lower bound for jittered ones); "
-        "non-trivial = the documented delays of the case are not all equal")
+        "also when each retry comes due while the step's only worker is busy, and when the loop reaches each failure late "
+        "(it was busy when the step failed); non-trivial = the documented delays of the case are not all equal")
 
 
 def run(tier: str, seed: int) -> CheckResult:
@@ -198,6 +201,10 @@ def run(tier: str, seed: int) -> CheckResult:
     # delays of the growing strategies, so later gaps are decided by the strategy again.
     cs += [{"wait": t, "retries": r, "busy_block": bb} for t in strategies(tier) for r in (3,) + (() if tier == "quick" else (5,))
            for bb in (0.75, 250.0)]
+    # the loop gets to the failure late (it was busy when the step failed): the retry is still not earlier than the documented
+    # delay after the failure
+    cs += [{"wait": t, "retries": r, "lag": lag} for t in strategies(tier) if t[0] in ("fixed", "incr", "random", "td", "combine", "chain")
+           for r in ((2,) if tier == "quick" else (2, 4)) for lag in ((0.4,) if tier == "quick" else (0.1, 0.4, 5.0))]
     res = CheckResult(PID, RULE)
     with mp.get_context("fork").Pool(16) as pool:
         results = pool.map(_work, cs, chunksize=8)
